@@ -36,7 +36,7 @@ set_option maxRecDepth 100000 in
 theorem trace_nostdin :
     (trace false).map (·.1) =
       [.fopen exEnv.confpath, .fclose 3, .opendir exNew, .readdir 4, .openRd 4 exName, .read 5, .read 5,
-       .openPath (ofString "/dev/null"), .fork, .waitpid, .close 6, .close 5,
+       .openPath (ofString "/dev/null"), .fork [ofString "true"] 6, .waitpid, .close 6, .close 5,
        .readdir 4, .closedir 4, .opendir exCur, .readdir 7, .closedir 7] := by
   unfold trace
   rw [Own.mainP_eq]
@@ -49,7 +49,7 @@ set_option maxRecDepth 100000 in
 theorem trace_stdin :
     (trace true).map (·.1) =
       [.fopen exEnv.confpath, .fclose 3, .opendir exNew, .readdir 4, .openRd 4 exName, .read 5, .read 5,
-       .dupfd 5, .lseek 6, .fork, .waitpid, .close 6, .close 5,
+       .dupfd 5, .lseek 6, .fork [ofString "cat"] 6, .waitpid, .close 6, .close 5,
        .readdir 4, .closedir 4, .opendir exCur, .readdir 7, .closedir 7] := by
   unfold trace
   rw [Own.mainP_eq]
@@ -62,10 +62,10 @@ set_option maxRecDepth 100000 in
 /-- The descriptor table at the `fork` (call 8 resp. 9): the stream of `/m/new`, the message, and `/dev/null` resp. the
 duplicate of the message's descriptor - each with the call that created it; and at the end of the run nothing is open. -/
 theorem tables :
-    (trace false)[8]? = some (.fork, .ok 0) ∧
+    (trace false)[8]? = some (.fork [ofString "true"] 6, .ok 0) ∧
     openFdsBy ((trace false).take 8) = [(4, .opendir exNew), (5, .openRd 4 exName), (6, .openPath (ofString "/dev/null"))] ∧
     openFds ((trace false).take 8) = [4, 5, 6] ∧ openFds (trace false) = [] ∧
-    (trace true)[9]? = some (.fork, .ok 0) ∧
+    (trace true)[9]? = some (.fork [ofString "cat"] 6, .ok 0) ∧
     openFdsBy ((trace true).take 9) = [(4, .opendir exNew), (5, .openRd 4 exName), (6, .dupfd 5)] ∧
     ((trace true).take 9).getLast? = some (.lseek 6, .ok 0) ∧ openFds (trace true) = [] := by
   unfold trace
@@ -84,6 +84,29 @@ theorem before_fork :
   unfold Own.mainK
   simp only [conf, Own.blocks_cons, Own.blocks_nil, Own.paths_cons, Own.paths_nil, dry_walk_G _ _ (rule false) (by decide), dry_walk_G _ _ (rule true) (by decide)]
   simp only [rule, eval]
+  decide +kernel
+
+/-! ## (package p14) a vector with blanks, quotes and `*`: three configured strings, three arguments -/
+
+/-- `match all exec { "printf" "a b 'c' *" "-x" }` -/
+def ruleA : Expr := .mtch 1 (.all 1) (.exec 1 false false [ofString "printf", ofString "a b 'c' *", ofString "-x"])
+
+def confA : List ConfBlock := [{ paths := [[47, 109]], expr := ruleA }]
+
+def traceA : List (Call × Res) :=
+  (runOracle (orcl false) (mainP exEnv wholeExOrc true confA wholeExFiles []) 0 []).2
+
+set_option maxRecDepth 100000 in
+/-- The `fork` (call 8) carries the three configured strings as three arguments, byte for byte, and the handle 6 that the
+call before (`open("/dev/null")`) returned. -/
+theorem tablesA :
+    traceA[7]? = some (.openPath Own.devNull, .ok 6) ∧
+    traceA[8]? = some (.fork [ofString "printf", ofString "a b 'c' *", ofString "-x"] 6, .ok 0) := by
+  unfold traceA
+  rw [Own.mainP_eq]
+  unfold Own.mainK
+  simp only [confA, Own.blocks_cons, Own.blocks_nil, Own.paths_cons, Own.paths_nil, dry_walk_G _ _ ruleA (by decide)]
+  simp only [ruleA, eval]
   decide +kernel
 
 /-! ## a `command` condition: the `fork` of evaluation -/
@@ -156,9 +179,9 @@ nothing is open. -/
 theorem tablesC :
     traceC.map (·.1) =
       [.fopen exEnv.confpath, .fclose 3, .opendir exNew, .readdir 4, .openRd 4 exName, .read 5, .read 5,
-       .openPath (ofString "/dev/null"), .fork, .waitpid, .close 6, .close 5,
+       .openPath (ofString "/dev/null"), .fork [ofString "false"] 6, .waitpid, .close 6, .close 5,
        .readdir 4, .closedir 4, .opendir exCur, .readdir 7, .closedir 7] ∧
-    traceC[8]? = some (.fork, .ok 0) ∧
+    traceC[8]? = some (.fork [ofString "false"] 6, .ok 0) ∧
     openFdsBy (traceC.take 8) = [(4, .opendir exNew), (5, .openRd 4 exName), (6, .openPath (ofString "/dev/null"))] ∧
     (traceC.take 8).getLast? = some (.openPath Own.devNull, .ok 6) ∧ openFds traceC = [] := by
   unfold traceC
